@@ -119,6 +119,15 @@ class Multiplication:
         gfa_line.set(count_tag, gfa_line.get(count_tag) // factor)
 
   def __divide_segment_and_connection_counts(self, segment, factor):
+    # (the counts are checked before any is divided)
+    for l in [segment] + segment.dovetails + segment.containments:
+      for count_tag in ["KC", "RC", "FC"]:
+        if count_tag in l.tagnames:
+          v = l.get(count_tag)
+          if not isinstance(v, int) or isinstance(v, bool):
+            raise gfapy.TypeError(
+              "The count {} of line {} is not an integer ({})".format(
+                count_tag, l, repr(v)))
     self.__divide_counts(segment, factor)
     processed_circulars = set()
     for l in segment.dovetails + segment.containments:
